@@ -871,7 +871,8 @@ func execCase(sp *spec, abort chan struct{}, verbose bool) vrun.Result {
 			}
 		}
 		wit := map[string]any{"spec": sp, "first_panic": map[string]any{"call": p.Call, "t": p.T, "panic": p.Val, "site": p.Site, "stack": p.Stack},
-			"emissions": ems, "panics": e.pbox.n.Load()}
+			"emissions": ems, "panics": e.pbox.n.Load(),
+			"designated_probe": map[string]any{"call": sp.Probe, "panicked_when_called_alone_afterwards": keyCall == sp.Probe && e.pbox.n.Load() > before}}
 		if cause == nil && initState != "?" {
 			return vrun.Violation("a call on the multi transport panicked although only member ids were configured and emitted", "panic:"+p.Call+":"+p.Site, wit)
 		}
